@@ -166,6 +166,9 @@ pub(crate) mod verif_common {
         }
     }
 
+    // the value the (last) load of the counter returned
+    pub fn last_load_ret() -> usize { st().last_l.ret }
+
     // ---- pure oracles ----
     pub fn clamp_end(b: usize, n: usize, len: usize) -> usize { if b >= len { b } else if n <= len - b { b + n } else { len } }
     pub fn remaining(c: usize, len: usize) -> usize { if c < len { len - c } else { 0 } }
